@@ -134,40 +134,8 @@ def r62(db, ctx):
 # ---------------------------------------------------------------------------
 # pointer classification
 
-def root_of(E, ptr, depth=0):
-    """Follow phi pointers to their initial value: returns (root Ptr, [(H, local, step lin)], total offset lin)."""
-    steps = []
-    off = dict(ptr.off)
-    p = ptr
-    for _ in range(6):
-        b = p.base
-        if isinstance(b, tuple) and b and b[0] == 'phi':
-            H, l = b[1], b[2]
-            ini = E.loops[H].carried.get(l)
-            st = K.ptr_update(E, H, l)
-            if not isinstance(ini, Ptr) or st is None:
-                return None, steps, off
-            steps.append((H, l, st))
-            for k, v in ini.off.items():
-                off[k] = off.get(k, 0) + v
-            p = ini
-        else:
-            break
-    return p, steps, {k: v for k, v in off.items() if v != 0}
-
-
-def classify(base):
-    """ROW(matrix expr) | SLICE(param) | LOCAL | OTHER."""
-    if isinstance(base, tuple) and base and base[0] == 'slice':
-        inner = base[1]
-        if isinstance(inner, tuple) and inner and inner[0] == 'call' and inner[1].endswith(('::index', '::index_mut')):
-            return ('ROW', inner[2][0], inner[2][1])
-        if isinstance(inner, tuple) and inner and inner[0] == 'p':
-            return ('SLICE', inner[1])
-        return ('OTHER', inner)
-    if isinstance(base, tuple) and base and base[0] == 'local':
-        return ('LOCAL', base[1])
-    return ('OTHER', base)
+root_of = K.root_of
+classify = K.classify
 
 
 def multiple_of(l, A, elem, facts):
@@ -180,6 +148,9 @@ def multiple_of(l, A, elem, facts):
             # v bytes-per-element * stride elements: stride*elem = size_of(Row), a multiple of 32
             if elem and (v % elem) != 0:
                 return False, f'{v}*stride'
+        elif k in facts and isinstance(facts[k], tuple):
+            if v % A != 0:
+                return False, f'{v}*{k[:40]}'
         elif k in facts:
             if (v * facts[k]) % A != 0:
                 return False, f'{v}*{k[:40]}'
@@ -205,6 +176,10 @@ def block_offset_facts(db, E):
                         mult = int(v0) if k0 == 'arg2' else (16 if 'USIZE' in k0 and 'arg2' in k0 else None)
                         if mult:
                             facts[X.canon(('elem', it, H))] = mult
+        # counted form: `for block in 0..C::Quotient::USIZE { let offset = block * 16; .. }` — the block index itself (multiplier 1);
+        # the factor 16 is then the coefficient of the atom
+        if it and it[0] == 'range' and norm(it[1]) == ('k', 0) and common.is_usize_const(it[2], 'Q'):
+            facts[X.canon(('elem', it, H))] = ('block', 1)
     return facts
 
 
@@ -249,7 +224,38 @@ def r64(db, ctx):
 
 
 def row_elem_size(f, root):
-    b = root.base
+    """Size in bytes of one element of the matrix row this pointer was derived from.  Taken from the *matrix type* (the pointer's own
+    pointee type changes with every `as *const __m256i` cast and says nothing about the row)."""
+    cls = classify(root.base)
+    if cls[0] != 'ROW':
+        return root.elem
+    M = norm(cls[1]) if isinstance(cls[1], tuple) else cls[1]
+    import re
+
+    def elem_of_ty(ty):
+        mm = re.search(r'(?:DenseMatrix|StripedScores)<\s*([^,<>]+(?:<[^<>]*>)?)\s*,', ty or '')
+        if mm:
+            return LN.sizeof(mm.group(1).strip())
+        if 'StripedSequence<' in (ty or '') or 'abc::Nucleotide' in (ty or '') or 'abc::AminoAcid' in (ty or ''):
+            return 1
+        return None
+    # walk to the parameter / local the matrix comes from
+    e = M
+    for _ in range(6):
+        if isinstance(e, tuple) and e and e[0] in ('p', 'v'):
+            sz = elem_of_ty(f.local_ty(e[1]))
+            if sz:
+                return sz
+            break
+        if isinstance(e, tuple) and e and e[0] == 'call' and e[2]:
+            if e[1].endswith(('StripedSequence::matrix', 'StripedSequence::into_matrix')):
+                return 1           # symbols are one byte (R5.1 / R19.1)
+            e = e[2][0]
+            continue
+        if isinstance(e, tuple) and e and e[0] in ('ref', 'deref', 'fld'):
+            e = e[1]
+            continue
+        break
     return root.elem
 
 
@@ -311,6 +317,15 @@ def r65(db, ctx):
             if not ok_shape:
                 ctx.fail('R6.5', f, f'{a.name}', 'reason=unrecognised-shape: pointer and counter are not in lock-step', span=a.span)
                 continue
+            stepped = {H for H, _, _ in steps}
+            for H in a.loops:
+                if H in stepped or H not in E.loops:
+                    continue
+                # the access is addressed through a loop counter directly (`base.add(i)`): the guards of the enclosing loops bound it
+                for cl, cinit, cstep in counter_relation(E, H):
+                    hyps.append({X.canon(('phi', H, cl)): 1})
+                for cnd, truth in E.loops[H].conds:
+                    hyps += guard_hyps(cnd, truth)
             # slice length in bytes
             plocal = cls[1]
             esz = root.elem or 1
@@ -425,7 +440,7 @@ def r63b(db, ctx):
             if cls[0] != 'ROW':
                 continue
             # offset within the row: constant part + block offset; must satisfy off + width <= 32*elem (C = 32) or C*elem via the block fact
-            e = root.elem or 1
+            e = row_elem_size(f, root) or 1
             const = off.get('', 0)
             others = {k: v for k, v in off.items() if k != '' and 'DenseMatrix::stride' not in k}
             width = a.width if a.kind != 'gather' else 0
@@ -441,6 +456,10 @@ def r63b(db, ctx):
                 if len(ks) == 1 and ks[0] in facts and facts[ks[0]] == 16 and others[ks[0]] == e:
                     ok = const + width <= 16 * e
                     why = f'block offset + {const}+{width} <= 16*{e}'
+                elif len(ks) == 1 and isinstance(facts.get(ks[0]), tuple) and others[ks[0]] == 16 * e:
+                    # block index b in 0..C/16 times 16 elements: offset*e + const + width <= C*e  iff  const + width <= 16*e
+                    ok = const + width <= 16 * e
+                    why = f'16*block + {const}+{width} <= 16*{e}'
                 elif len(ks) == 1 and 'elem' in ks[0] and 'USIZE' in ks[0] and others[ks[0]] == e and a.width == e:
                     ok = True   # load1_ps(pssmptr + k), k < K <= row width
                     why = 'k < K columns of a K-wide row'
@@ -538,7 +557,7 @@ def r68(db, ctx):
                 continue
             M, row0 = cls[1], cls[2]
             cM = X.canon(M)
-            e = root.elem or 1
+            e = row_elem_size(f, root) or 1
             rows_atom = X.canon(('call', 'lightmotif::dense::DenseMatrix::rows', (M,)))
             hyps = [{rows_atom: 1}]
             prem = []
@@ -561,7 +580,9 @@ def r68(db, ctx):
             r0 = norm(row0)
             if r0 == ('k', 0):
                 pass
-            elif r0[0] == 'elem' and isinstance(r0[1], tuple) and r0[1][0] == 'iter' and norm(r0[1][1], True)[0] == 'p':
+            elif (r0[0] == 'elem' and isinstance(r0[1], tuple) and r0[1][0] == 'iter' and norm(r0[1][1], True)[0] == 'p') or \
+                    (r0[0] == 'fld' and str(r0[2]) == '1' and r0[1][0] == 'elem' and isinstance(r0[1][1], tuple) and r0[1][1][0] == 'iter'
+                     and m(('call~', 'Iterator::enumerate', (('p', '_'),)), norm(r0[1][1][1], True)) is not None):
                 # a row of the caller's range: contract rows.end <= rows(seq) - wrap, and R6.2: wrap >= rows(pssm) - 1
                 ratom = X.canon(r0)
                 wrap_atom = 'WRAP(' + cM + ')'
@@ -602,9 +623,11 @@ def r68(db, ctx):
                     for k, v in X.lin(L.iter[1]).items():
                         add(h, k, -v)
                     hyps.append(h)                                                     # it <= hi - lo - 1
-                elif L.iter and L.iter[0] == 'iter' and norm(L.iter[1], True)[0] == 'p':
+                elif L.iter and L.iter[0] == 'iter' and (norm(L.iter[1], True)[0] == 'p' or m(('call~', 'Iterator::enumerate', (('p', '_'),)), norm(L.iter[1], True)) is not None):
                     pos = f'pos#{H}'
-                    len_atom = 'LEN(' + X.canon(norm(L.iter[1], True)) + ')'
+                    itp = norm(L.iter[1], True)
+                    itp = itp if itp[0] == 'p' else itp[2][0]
+                    len_atom = 'LEN(' + X.canon(itp) + ')'
                     add(rowlin, pos, per)
                     hyps.append({pos: 1})
                     hyps.append({len_atom: 1, pos: -1, '': -1})                       # pos <= len - 1
